@@ -168,6 +168,24 @@ theorem ofReal_half : (ofReal ((1 : K) / 2) : Cx K) = 1 / 2 := by
 theorem rmul_half (x : Cx K) : rmul ((1 : K) / 2) x = (1 / 2 : Cx K) * x := by
   rw [rmul_eq, ofReal_half]
 
+/-! `ofReal` is a field embedding -/
+@[simp] theorem ofReal_re (r : K) : (ofReal r : Cx K).re = r := rfl
+@[simp] theorem ofReal_im (r : K) : (ofReal r : Cx K).im = 0 := rfl
+theorem ofReal_zero : (ofReal 0 : Cx K) = 0 := rfl
+theorem ofReal_one : (ofReal 1 : Cx K) = 1 := rfl
+theorem ofReal_add (a b : K) : (ofReal (a + b) : Cx K) = ofReal a + ofReal b := by apply ext' <;> simp
+theorem ofReal_mul (a b : K) : (ofReal (a * b) : Cx K) = ofReal a * ofReal b := by apply ext' <;> simp
+theorem ofReal_neg (a : K) : (ofReal (-a) : Cx K) = -ofReal a := by apply ext' <;> simp
+theorem ofReal_sub (a b : K) : (ofReal (a - b) : Cx K) = ofReal a - ofReal b := by apply ext' <;> simp
+theorem ofReal_div (a b : K) : (ofReal (a / b) : Cx K) = ofReal a / ofReal b := by
+  by_cases hb : b = 0
+  · subst hb; rw [div_zero, ofReal_zero, div_zero]
+  · rw [eq_div_iff (ofReal_ne_zero hb), ← ofReal_mul, div_mul_cancel₀ a hb]
+theorem ofReal_ofNat (n : ℕ) [n.AtLeastTwo] : (ofReal (OfNat.ofNat n : K) : Cx K) = OfNat.ofNat n := by
+  have := ofReal_natCast (K := K) n
+  rw [← Nat.cast_ofNat (R := K), ← Nat.cast_ofNat (R := Cx K)]
+  exact this
+
 theorem ne0_iff [DecidableEq K] (z : Cx K) : z.ne0 = true ↔ z ≠ 0 := by
   unfold ne0
   constructor
